@@ -28,6 +28,8 @@ MCRecallMenuSmall == { <<>>, <<Fin(<<Emit3>>)>>, <<[t |-> "call", c |-> FALSE], 
 
 MCMatchArms == { <<>>, <<Fin(<<Emit1>>)>>, <<[t |-> "check", c |-> FALSE, e |-> "panic"]>> }
 
+MCExtraSimple == {[t |-> "dassert", c |-> c] : c \in BOOLEAN}
+
 (* base programs for misplaced finish-only statements: each fails (Panic) on some path after
    the point where a statement can be inserted *)
 ChkP(c) == [t |-> "check", c |-> c, e |-> "panic"]
@@ -59,7 +61,7 @@ RandStmt(n, d) ==
       UNION {{[t |-> "if", c |-> c, a |-> a, b |-> b, els |-> b # <<>>] :
                  c \in {RandomElement(BOOLEAN)}, b \in {RandBlock(n - 1 - SizeB(a), d - 1, FALSE)}} :
               a \in {RandBlock(n - 1, d - 1, TRUE)}}
-    ELSE LET ms == Matches(n) IN IF ms = {} THEN {RandomElement(Simple)} ELSE {RandomElement(ms)}
+    ELSE LET ms == Matches(n) \cup Elifs(n) IN IF ms = {} THEN {RandomElement(Simple)} ELSE {RandomElement(ms)}
     : k \in {RandomElement(1..10)}})
 RandBlock(n, d, nonempty) ==
   IF n <= 0 THEN <<>>
